@@ -210,10 +210,6 @@ func (p *process) cleanup(cancel context.CancelFunc) {
 	}
 	defer p.stopDone()
 
-	if p.context.parentCtx != nil {
-		p.context.parentCtx.children.Delete(p.pid.ID)
-	}
-
 	if p.context.children.Len() > 0 {
 		children := p.context.Children()
 		for _, pid := range children {
@@ -223,9 +219,15 @@ func (p *process) cleanup(cancel context.CancelFunc) {
 
 	p.stopped = true
 	p.inbox.Stop()
-	p.context.engine.Registry.Remove(p.pid)
 	p.context.message = Stopped{}
 	applyMiddleware(p.context.receiver.Receive, p.Opts.Middleware...)(p.context)
+	// Only now do we disappear from the registry and from our parent: whoever
+	// asks for us to be stopped while Stopped is still being handled (our
+	// parent shutting down, another caller) must find us and wait for us.
+	p.context.engine.Registry.Remove(p.pid)
+	if p.context.parentCtx != nil {
+		p.context.parentCtx.children.Delete(p.pid.ID)
+	}
 
 	p.context.engine.BroadcastEvent(ActorStoppedEvent{PID: p.pid, Timestamp: time.Now()})
 }
